@@ -923,7 +923,35 @@ def float_plumb(d, cls):
 
 
 # ------------------------------------------------------------------ instances
+@meta(bounds="a CharacterString RECEIVED in another character set and passed on (what a gateway does): the tag carries encoding "
+             "octet 4 (UCS-2), 5 (ISO 8859-1), 3 (UCS-4), 1, 2 or an undefined one, with a concrete representative body (14 cases: "
+             "ASCII and non-ASCII characters, the empty string, octets that are not valid UTF-8); decoding it and encoding the result - also a copy made with CharacterString(x) - gives the same octets "
+             "and the same character set back, in both tagging modes",
+      outside="other bodies (the character-set codecs are not followed symbolically)",
+      stubs=[], assumes=[])
+def str_reencode(d):
+    from bacpypes.primitivedata import CharacterString, Tag
+    # concrete representative bodies: the codecs of the character sets, driven with symbolic octets, make the engine enumerate
+    enc, body = d.pick([(4, b"\x00a"), (4, b"\x00a\x00b"), (4, b"\x61\x62"), (4, b"\xff\xfd"), (4, b""),
+                        (5, b"a"), (5, b"caf\xe9"), (5, b"\xff\x80"),
+                        (3, b"\x00\x00\x00a"), (3, b"\x00\x01\xf6\x00"),
+                        (6, b"ab"), (255, b"\x00\xff"), (1, b"ab"), (2, b"ab")], 'received')
+    data = bytes([enc]) + body
+    tag = Tag(Tag.applicationTagClass, Tag.characterStringAppTag, len(data), data)
+    x = CharacterString(tag)
+    for who, obj in (("received", x), ("copy", CharacterString(x))):
+        t2 = Tag()
+        obj.encode(t2)
+        if bytes(t2.tagData) != data:
+            raise Violation("reencoded-differs", who=who, character_set=enc, got=bytes(t2.tagData), want=data)
+        y = CharacterString(t2)
+        if y.strEncoding != enc or y.value != x.value:
+            raise Violation("reencoded-decodes-differently", who=who, character_set=enc)
+    d.reach()
+
+
 def instances(tier):
+    _extra = [Inst(str_reencode, {}, budget=120)]
     q = tier == "quick"
     W = 2 ** 71
     out = []
@@ -987,6 +1015,7 @@ def instances(tier):
         out.append(Inst(tag_conv, dict(lo=lo, hi=lo + 3, n=3 if q else 6), budget=b))
     out.append(Inst(float_plumb, dict(cls="Real"), budget=b))
     out.append(Inst(float_plumb, dict(cls="Double"), budget=b))
+    out.extend(_extra)
     return out
 
 
